@@ -98,6 +98,34 @@ PayloadVecs ==
   \cup { Vec("Payload", CfgDeleg(bm, <<>>), "reject", "undefined bitmap bit", NoFields) : bm \in {8, 16, 32768, 65528} }
   \cup { Vec("Payload", << U8(t) >>, "reject", "undefined payload tag", NoFields) : t \in {200, 255} }
 
+(* contract payloads: deploy = tag 0, module version u32 (0 or 1), source u32 length + bytes; init = tag 1, amount u64, module reference 32 bytes,
+   init name u16 + "init_..." , parameter u16 + bytes; update = tag 2, amount, contract address (index, subindex u64), receive name u16 + "c.f",
+   message u16 + bytes.  Stake payloads: remove baker = tag 5 (nothing), update stake = tag 6 amount, restake = tag 7 boolean, transfer to
+   encrypted = tag 17 amount.  Token update = tag 27, token id u8 length (1..128) + characters, operations u32 length + CBOR bytes. *)
+InitName == <<105, 110, 105, 116, 95, 99>>       \* init_c
+RecvName == <<99, 46, 102>>                      \* c.f
+Deploy(v, n) == << U8(0), U32(v), U32(n), R(0, n) >>
+InitC(nameBytes, plen) == << U8(1), U64(5), R(7, 32), U16(Len(nameBytes)), B(nameBytes), U16(plen), R(1, plen) >>
+UpdateC(nameBytes, plen) == << U8(2), U64(0), U64(3), U64(0), U16(Len(nameBytes)), B(nameBytes), U16(plen), R(1, plen) >>
+TokenUpd(idLen, opsLen, present) == << U8(27), U8(idLen), R(65, idLen), U32(opsLen), R(128, present) >>
+ContractVecs ==
+  { Vec("Payload", Deploy(v, n), "accept", "canonical", NoFields) : v \in {0, 1}, n \in {0, 8} }
+  \cup { Vec("Payload", Deploy(2, 8), "reject", "undefined module version", NoFields), Vec("Payload", Deploy(256, 8), "reject", "undefined module version", NoFields),
+         Vec("Payload", << U8(0), U32(1), U32(9), R(0, 8) >>, "reject", "truncated", NoFields) }
+  \cup { Vec("Payload", InitC(InitName, n), "accept", "canonical", NoFields) : n \in {0, 3, 1024} }
+  \cup { Vec("Payload", InitC(RecvName, 0), "reject", "init name without init_ prefix", NoFields),
+         Vec("Payload", InitC(InitName \o <<46, 120>>, 0), "reject", "init name with a dot", NoFields) }
+  \cup { Vec("Payload", UpdateC(RecvName, n), "accept", "canonical", NoFields) : n \in {0, 3, 1024} }
+  \cup { Vec("Payload", UpdateC(<<99, 102>>, 0), "reject", "receive name without a dot", NoFields),
+         Vec("Payload", << U8(5) >>, "accept", "canonical", NoFields), Vec("Payload", << U8(6), U64(1000) >>, "accept", "canonical", NoFields),
+         Vec("Payload", << U8(7), U8(1) >>, "accept", "canonical", NoFields), Vec("Payload", << U8(7), U8(2) >>, "any", "boolean byte 2", NoFields),
+         Vec("Payload", << U8(17), U64(7) >>, "accept", "canonical", NoFields), Vec("Payload", << U8(6), U32(7) >>, "reject", "truncated", NoFields) }
+  \cup { Vec("Payload", TokenUpd(n, 1, 1), "accept", "canonical", NoFields) : n \in {1, 3, 128} }
+  \cup { Vec("Payload", TokenUpd(0, 1, 1), "reject", "empty token id", NoFields), Vec("Payload", TokenUpd(129, 1, 1), "reject", "token id longer than 128", NoFields),
+         Vec("Payload", TokenUpd(3, 5, 4), "reject", "truncated", NoFields),
+         Vec("Payload", TokenUpd(3, 2147483647, 4), "reject", "hostile length", NoFields), Vec("Payload", TokenUpd(3, 16777216, 8), "reject", "hostile length", NoFields),
+         Vec("Payload", << U8(27), U8(3), B(<<65, 32, 66>>), U32(1), R(128, 1) >>, "reject", "token id with a space", NoFields) }
+
 (* CredentialPublicKeys: u8 #keys, then per key: key index u8, scheme 0, 32-byte key; then threshold u8; indices strictly increasing *)
 K1 == <<59, 106, 39, 188, 206, 182, 164, 45, 98, 163, 168, 208, 42, 111, 13, 115, 101, 50, 21, 119, 29, 226, 67, 166, 58, 192, 72, 161, 139, 89, 218, 41>>
 K2 == <<215, 90, 152, 1, 130, 177, 10, 183, 213, 75, 254, 211, 201, 100, 7, 58, 14, 225, 114, 243, 218, 166, 35, 37, 175, 2, 26, 104, 247, 7, 81, 26>>
@@ -189,7 +217,7 @@ PoolVecs ==
          Vec("UpdatePayload", << U8(25), U64(1) >>, "reject", "undefined update tag", NoFields),
          Vec("UpdatePayload", << U8(255) >>, "reject", "undefined update tag", NoFields) }
 
-AllVectors == PoolVecs \cup HostileVecs \cup HeaderVecs \cup HeaderV1Vecs \cup TxSigVecs \cup PayloadVecs \cup CredKeysVecs \cup UAccVecs \cup RateVecs \cup FracVecs \cup TxVecs
+AllVectors == ContractVecs \cup PoolVecs \cup HostileVecs \cup HeaderVecs \cup HeaderV1Vecs \cup TxSigVecs \cup PayloadVecs \cup CredKeysVecs \cup UAccVecs \cup RateVecs \cup FracVecs \cup TxVecs
 
 VARIABLE vec
 WInit == vec \in AllVectors
